@@ -384,43 +384,82 @@ struct Version
   std::vector<size_t> bps;
 };
 
+struct Slot
+{
+  bool live = false;
+  std::vector<Version> vers;                         // the object's own configuration history (a copy inherits it)
+  std::unique_ptr<bpp::HmmLikelihood> lik;
+  std::shared_ptr<bpp::HmmTransitionMatrix> tm;      // transition model on its own (kinds full / auto)
+};
+
+template<class T> static bool copyAs(bpp::HmmLikelihood* src, Slot& dst, const std::string& how)
+{
+  T* s = dynamic_cast<T*>(src);
+  if (!s) return false;
+  if (how == "assign") *dynamic_cast<T*>(dst.lik.get()) = *s;
+  else if (how == "clone") dst.lik.reset(s->clone());
+  else dst.lik.reset(new T(*s));
+  return true;
+}
+template<class T> static bool copyTmAs(bpp::HmmTransitionMatrix* src, Slot& dst, const std::string& how)
+{
+  T* s = dynamic_cast<T*>(src);
+  if (!s) return false;
+  if (how == "assign") *dynamic_cast<T*>(dst.tm.get()) = *s;
+  else if (how == "clone") dst.tm.reset(s->clone());
+  else dst.tm.reset(new T(*s));
+  return true;
+}
+
 class CacheRun
 {
 public:
   Conf c;
   Refs refs;
-  std::vector<Version> vers;
-  Built obj;
-  std::shared_ptr<bpp::HmmTransitionMatrix> tmObj;
+  Slot slot[3]; // object ids 1 and 2
+  int cur = 1;
   long events = 0;
 
-  explicit CacheRun(const Conf& cc) : c(cc), refs(c), vers(), obj(), tmObj() {}
+  explicit CacheRun(const Conf& cc) : c(cc), refs(c) {}
+
+  int other() const { return 3 - cur; }
+  Slot& S(int o) { return slot[o]; }
+  bool tmKind() const { return isTmKind(c.cls); }
 
   void reset(const Theta& th0, const std::vector<size_t>& bps0)
   {
-    vers.clear();
-    vers.push_back(Version{th0, bps0});
+    for (int o = 1; o <= 2; ++o) slot[o] = Slot();
+    cur = 1;
+    Slot& s = slot[1];
+    s.live = true;
+    s.vers.push_back(Version{th0, bps0});
     g_overruns = 0;
     Arr b;
     for (size_t x : bps0) b.add(x);
     tracer().emit(Obj().kv("e", "Reset").kv("k", c.cls).kv("tm", c.tm).kv("n", c.n).kv("len", c.len).kv("chunk", c.chunk).kv("bps", b));
-    if (isTmKind(c.cls))
+    if (tmKind())
     {
       std::shared_ptr<HAlphabet> al(new HAlphabet(c.n));
       Conf c2 = c;
       c2.tm = c.cls;
-      tmObj = makeTm(c2, al, th0);
+      s.tm = makeTm(c2, al, th0);
     }
-    else obj = build(c, th0, bps0);
+    else
+    {
+      Built bl = build(c, th0, bps0);
+      s.lik = std::move(bl.lik);
+    }
   }
-  long ver() const { return static_cast<long>(vers.size()) - 1; }
+  long ver(int o) { return static_cast<long>(S(o).vers.size()) - 1; }
+  bool mem() const { return g_overruns.load() == 0; }
 
   // style: 0 setParametersValues(sub list) 1 setParameterValue one by one 2 matchParametersValues 3 setAllParametersValues
-  void update(const Theta& changes, int style)
+  void update(int o, const Theta& changes, int style)
   {
-    Version v = vers.back();
+    Slot& s = S(o);
+    Version v = s.vers.back();
     for (const auto& kv : changes) thetaSet(v.th, kv.first, kv.second);
-    bpp::Parametrizable* p = isTmKind(c.cls) ? static_cast<bpp::Parametrizable*>(tmObj.get()) : static_cast<bpp::Parametrizable*>(obj.lik.get());
+    bpp::Parametrizable* p = tmKind() ? static_cast<bpp::Parametrizable*>(s.tm.get()) : static_cast<bpp::Parametrizable*>(s.lik.get());
     std::string r = outcome<bpp::Exception>([&]() {
       if (style == 1)
         for (const auto& kv : changes) p->setParameterValue(kv.first, kv.second);
@@ -434,50 +473,86 @@ public:
       }
       else p->setParametersValues(toPl(changes));
     });
-    vers.push_back(v);
-    tracer().emit(Obj().kv("e", "Update").kv("ver", ver()).kv("r", r).kv("style", style).kv("np", changes.size()).kv("mem", g_overruns.load() == 0));
+    s.vers.push_back(v);
+    tracer().emit(Obj().kv("e", "Update").kv("o", o).kv("ver", ver(o)).kv("r", r).kv("style", style).kv("np", changes.size()).kv("mem", mem()));
     ++events;
   }
   // FullHmmTransitionMatrix::setTransitionProbabilities: afterwards the model's *parameters* are the
   // configuration (read back from the object), and every answer must be the one of a fresh object at them
-  void setMatrix(const Tab& m)
+  void setMatrix(int o, const Tab& m)
   {
-    bpp::FullHmmTransitionMatrix* f = dynamic_cast<bpp::FullHmmTransitionMatrix*>(tmObj.get());
+    Slot& s = S(o);
+    bpp::FullHmmTransitionMatrix* f = dynamic_cast<bpp::FullHmmTransitionMatrix*>(s.tm.get());
     bpp::RowMatrix<double> mat(m.size(), m.size());
     for (size_t i = 0; i < m.size(); ++i)
       for (size_t j = 0; j < m.size(); ++j) mat(i, j) = m[i][j];
     std::string r = outcome<bpp::Exception>([&]() { f->setTransitionProbabilities(mat); });
-    Version v = vers.back();
+    Version v = s.vers.back();
     const ParameterList& pl = f->getParameters();
     for (size_t i = 0; i < pl.size(); ++i) thetaSet(v.th, pl[i].getName(), pl[i].getValue());
-    vers.push_back(v);
-    tracer().emit(Obj().kv("e", "Update").kv("ver", ver()).kv("r", r).kv("style", 4).kv("np", pl.size()).kv("mem", g_overruns.load() == 0));
+    s.vers.push_back(v);
+    tracer().emit(Obj().kv("e", "Update").kv("o", o).kv("ver", ver(o)).kv("r", r).kv("style", 4).kv("np", pl.size()).kv("mem", mem()));
     ++events;
   }
-  void setBps(const std::vector<size_t>& bps)
+  void setBps(int o, const std::vector<size_t>& bps)
   {
-    Version v = vers.back();
+    Slot& s = S(o);
+    Version v = s.vers.back();
     v.bps = bps;
-    std::string r = outcome<bpp::Exception>([&]() { obj.lik->setBreakPoints(bps); });
-    vers.push_back(v);
+    std::string r = outcome<bpp::Exception>([&]() { s.lik->setBreakPoints(bps); });
+    s.vers.push_back(v);
     Arr b;
     for (size_t x : bps) b.add(x);
-    tracer().emit(Obj().kv("e", "SetBps").kv("ver", ver()).kv("r", r).kv("bps", b).kv("mem", g_overruns.load() == 0));
+    tracer().emit(Obj().kv("e", "SetBps").kv("o", o).kv("ver", ver(o)).kv("r", r).kv("bps", b).kv("mem", mem()));
     ++events;
   }
-  void query(const Q& q)
+  // copy construction / clone() into a free slot, operator= onto a live one
+  void copy(int from, int to, std::string how)
   {
-    Ans a = isTmKind(c.cls) ? askTm(*tmObj, q) : ask(*obj.lik, q);
+    Slot& s = S(from);
+    Slot& d = S(to);
+    if (!d.live && how == "assign") how = "clone";
+    if (d.live && how != "assign")
+    {
+      d.lik.reset();
+      d.tm.reset();
+    }
+    std::string r = outcome<bpp::Exception>([&]() {
+      if (tmKind())
+      {
+        copyTmAs<bpp::FullHmmTransitionMatrix>(s.tm.get(), d, how) || copyTmAs<bpp::AutoCorrelationTransitionMatrix>(s.tm.get(), d, how);
+      }
+      else
+      {
+        copyAs<bpp::RescaledHmmLikelihood>(s.lik.get(), d, how) || copyAs<bpp::LogsumHmmLikelihood>(s.lik.get(), d, how) ||
+            copyAs<bpp::LowMemoryRescaledHmmLikelihood>(s.lik.get(), d, how);
+      }
+    });
+    d.live = true;
+    d.vers = s.vers;
+    tracer().emit(Obj().kv("e", "Copy").kv("o", from).kv("o2", to).kv("how", how).kv("r", r).kv("mem", mem()));
+    ++events;
+  }
+  void drop(int o)
+  {
+    { Guard gd; slot[o] = Slot(); }
+    tracer().emit(Obj().kv("e", "Drop").kv("o", o).kv("mem", mem()));
+    ++events;
+  }
+  void query(int oid, const Q& q)
+  {
+    Slot& s = S(oid);
+    Ans a = tmKind() ? askTm(*s.tm, q) : ask(*s.lik, q);
     std::string k = a.key();
     Arr same;
-    for (size_t i = 0; i < vers.size(); ++i)
-      if (refs.get(vers[i].th, vers[i].bps, q) == k) same.add(i);
+    for (size_t i = 0; i < s.vers.size(); ++i)
+      if (refs.get(s.vers[i].th, s.vers[i].bps, q) == k) same.add(i);
     Obj o;
-    o.kv("e", "Q" + q.k).kv("ver", ver()).kv("r", a.r == "ok" ? "ok" : "raise").kv("same", same);
+    o.kv("e", "Q" + q.k).kv("o", oid).kv("ver", ver(oid)).kv("r", a.r == "ok" ? "ok" : "raise").kv("same", same);
     if (q.k == "Post" || q.k == "Site") o.kv("site", q.site);
     if (q.k == "D1" || q.k == "D2") o.kv("var", q.var);
     if (q.k == "TPij") o.kv("i", q.i).kv("j", q.j);
-    o.kv("mem", g_overruns.load() == 0);
+    o.kv("mem", mem());
     tracer().emit(o);
     ++events;
   }
@@ -602,24 +677,59 @@ static void randCoefs(Rng& g, Conf& c, bool tiny)
 }
 
 // the action alphabet of the likelihood classes / of the transition models
-static std::vector<std::string> alphabet(const Conf& c)
+static std::vector<std::string> alphabet(const Conf& c, bool random)
 {
-  if (c.cls == "full") return {"U", "S", "TPij", "TMat", "TEq"};
-  if (isTmKind(c.cls)) return {"U", "TPij", "TMat", "TEq"};
-  return {"U", "B", "LogLik", "Post", "PostS", "Site", "SiteS", "D1a", "D1b", "D2a", "D2b", "D1z"};
+  // C copy current -> other slot, Cb assign other -> current, Uo update the other object, W switch to the other object, X destroy the other object
+  std::vector<std::string> a;
+  if (c.cls == "full") a = {"U", "S", "TPij", "TMat", "TEq", "C", "Cb", "Uo", "W"};
+  else if (isTmKind(c.cls)) a = {"U", "TPij", "TMat", "TEq", "C", "Cb", "Uo", "W"};
+  else a = {"U", "B", "LogLik", "Post", "PostS", "Site", "D1a", "D1b", "D2a", "D2b", "D1z", "C", "Cb", "Uo", "W"};
+  if (random)
+  {
+    a.push_back("X");
+    if (!isTmKind(c.cls)) a.push_back("SiteS");
+  }
+  return a;
 }
 
 static void act(CacheRun& run, Rng& g, const std::string& a, const std::vector<Theta>& cycle, size_t& cyc, const std::vector<std::vector<size_t>>& bpsCycle, size_t& bcyc, bool randomUpd)
 {
   Q q;
-  if (a == "U")
+  int o = run.cur;
+  if (a == "U" || a == "Uo")
   {
-    if (randomUpd) run.update(randChanges(g, run.vers.back().th, run.c.tables.size(), g.chance(1, 4)), static_cast<int>(g.below(4)));
+    if (a == "Uo")
+    {
+      o = run.other();
+      if (!run.S(o).live) return;
+    }
+    if (randomUpd) run.update(o, randChanges(g, run.S(o).vers.back().th, run.c.tables.size(), g.chance(1, 4)), static_cast<int>(g.below(4)));
     else
     {
       cyc = (cyc + 1) % cycle.size();
-      run.update(cycle[cyc], static_cast<int>(cyc % 4));
+      run.update(o, cycle[cyc], static_cast<int>(cyc % 4));
     }
+    return;
+  }
+  if (a == "C")
+  {
+    const char* hows[] = {"clone", "ctor", "assign"};
+    run.copy(o, run.other(), hows[g.below(3)]);
+    return;
+  }
+  if (a == "Cb")
+  {
+    if (run.S(run.other()).live) run.copy(run.other(), o, "assign");
+    return;
+  }
+  if (a == "W")
+  {
+    if (run.S(run.other()).live) run.cur = run.other();
+    return;
+  }
+  if (a == "X")
+  {
+    if (run.S(run.other()).live) run.drop(run.other());
     return;
   }
   if (a == "S")
@@ -635,16 +745,16 @@ static void act(CacheRun& run, Rng& g, const std::string& a, const std::vector<T
       }
       for (double& x : row) x /= s;
     }
-    run.setMatrix(m);
+    run.setMatrix(o, m);
     return;
   }
   if (a == "B")
   {
-    if (randomUpd) run.setBps(randBps(g, run.c.len));
+    if (randomUpd) run.setBps(o, randBps(g, run.c.len));
     else
     {
       bcyc = (bcyc + 1) % bpsCycle.size();
-      run.setBps(bpsCycle[bcyc]);
+      run.setBps(o, bpsCycle[bcyc]);
     }
     return;
   }
@@ -673,7 +783,7 @@ static void act(CacheRun& run, Rng& g, const std::string& a, const std::vector<T
     q.j = g.below(run.c.n);
   }
   else q.k = a;
-  run.query(q);
+  run.query(o, q);
 }
 
 static Conf randConf(Rng& g, const std::string& cls)
@@ -715,8 +825,8 @@ static long modeCache(Rng& g, long nrandom, long depth, long& scenarios)
     std::vector<Theta> cycle;
     for (int k = 0; k < 3; ++k) cycle.push_back(randChanges(g, th0, 0, k != 1));
     std::vector<std::vector<size_t>> bpsCycle = {{}, {1}, {2}, {1, 2}};
-    std::vector<std::string> al = alphabet(c);
-    long d = isTmKind(cls) ? depth + 2 : depth;
+    std::vector<std::string> al = alphabet(c, false);
+    long d = isTmKind(cls) ? depth + 1 : depth;
     std::vector<size_t> idx(static_cast<size_t>(d), 0);
     CacheRun run(c); // references are shared by all histories of the family
     for (;;)
@@ -739,7 +849,7 @@ static long modeCache(Rng& g, long nrandom, long depth, long& scenarios)
     CacheRun run(c);
     run.reset(th0, isTmKind(c.cls) ? std::vector<size_t>() : randBps(g, c.len));
     ++scenarios;
-    std::vector<std::string> al = alphabet(c);
+    std::vector<std::string> al = alphabet(c, true);
     size_t steps = 6 + g.below(25);
     std::vector<Theta> none;
     std::vector<std::vector<size_t>> noneB;
@@ -837,7 +947,7 @@ static long ipow(long b, size_t e)
   return r;
 }
 
-static void exactEvent(const ExactModel& m, Built& o, const Theta& th, const std::vector<size_t>& bps, long& skipped)
+static void exactEvent(Rng& g, const ExactModel& m, Built& o, const Theta& th, const std::vector<size_t>& bps, long& skipped)
 {
   const Conf& c = m.c;
   bool near = true;
@@ -885,7 +995,7 @@ static void exactEvent(const ExactModel& m, Built& o, const Theta& th, const std
   // answers, at the exact scale of the model
   size_t nseg = bps.size() + 1;
   double scale = static_cast<double>(ipow(m.dPi, nseg)) * static_cast<double>(ipow(m.dP, c.len - nseg)) * static_cast<double>(ipow(m.dE, c.len));
-  if (scale * static_cast<double>(m.dE) > 2.0e9)
+  if (scale * 16.0 > 2.0e9) // L'' <= len^2 * scale
   {
     ++skipped;
     return;
@@ -917,6 +1027,30 @@ static void exactEvent(const ExactModel& m, Built& o, const Theta& th, const std
       SL.add(num(sl[i] * static_cast<double>(L) * static_cast<double>(m.dE), 1, sn));
       if (o.lik->getLikelihoodForASite(i) != sl[i]) rowsEq = false;
     }
+  }
+  // derivatives of -log L w.r.t. a and b, in random order, second before first half of the time:
+  // q1 = -d1 * L (= L'), q2 = (d1*d1 - d2) * L (= L'')
+  {
+    Obj D;
+    std::string order[2] = {"a", "b"};
+    if (g.coin()) std::swap(order[0], order[1]);
+    Obj per[2];
+    for (int k = 0; k < 2; ++k)
+    {
+      double d1 = 0, d2 = 0;
+      bool secondFirst = g.coin();
+      std::string r = outcome<bpp::Exception>([&]() {
+        if (secondFirst) d2 = o.lik->getSecondOrderDerivative(order[k]);
+        d1 = o.lik->getFirstOrderDerivative(order[k]);
+        if (!secondFirst) d2 = o.lik->getSecondOrderDerivative(order[k]);
+      });
+      bool n1 = true, n2 = true;
+      long q1 = r == "ok" ? num(-d1 * static_cast<double>(L), 1, n1) : 0;
+      long q2 = r == "ok" ? num((d1 * d1 - d2) * static_cast<double>(L), 1, n2) : 0;
+      per[k].kv("r", r == "ok" ? "ok" : "raise").kv("q1", q1).kv("n1", n1).kv("q2", q2).kv("n2", n2);
+    }
+    D.kv(order[0], per[0]).kv(order[1], per[1]);
+    ev.kv("D", D);
   }
   ev.kv("Pr", pr == "ok" ? "ok" : "raise").kv("T", Tn).kv("Tnear", tn).kv("SL", SL).kv("SLnear", sn).kv("rowsEq", rowsEq);
   ev.kv("mem", g_overruns.load() == 0);
@@ -1067,11 +1201,11 @@ static long modeExact(Rng& g, long reps, long& scenarios, long& skipped)
               Built o = build(c, th, late ? std::vector<size_t>() : bps);
               if (late)
               {
-                exactEvent(m, o, th, {}, skipped);
+                exactEvent(g, m, o, th, {}, skipped);
                 ++events;
                 o.lik->setBreakPoints(bps);
               }
-              exactEvent(m, o, th, bps, skipped);
+              exactEvent(g, m, o, th, bps, skipped);
               ++events;
               // two updates (emission parameter flips and/or another dyadic transition setting)
               for (int u = 0; u < 2; ++u)
@@ -1088,7 +1222,7 @@ static long modeExact(Rng& g, long reps, long& scenarios, long& skipped)
                 });
                 tracer().emit(Obj().kv("e", "XUpdate").kv("r", r));
                 ++events;
-                exactEvent(m, o, th, bps, skipped);
+                exactEvent(g, m, o, th, bps, skipped);
                 ++events;
               }
             }
